@@ -146,8 +146,18 @@ def run(ctx):
                 continue
             check_case(sweep_doc(codec, indent, le, t, via), obs, 'sweep')
     n = ctx.share(ctx.pick(20000, 600000))
+    from mon.gen import codecs_cat
+    allc = sorted(codecs_cat.catalogue())
     for k in range(n):
-        doc = recipe.gen_doc(rng)
+        if k % 10 == 9:
+            # any stateless text codec the interpreter knows, not only the 15
+            # of the standard pool
+            pool = rng.sample(allc, 4)
+            doc = recipe.gen_doc(rng, pool=pool,
+                                 main_pool=pool + ['utf-8'])
+            obs.count('case:wide_codec_pool')
+        else:
+            doc = recipe.gen_doc(rng)
         check_case(doc, obs)
         if k < 2 and ctx.index == 0:
             obs.sample({'recipe': doc})
